@@ -24,6 +24,7 @@ pub struct Scripted {
     pub built: Arc<AtomicU64>,
     pub seed: u64,
     pub seq: bool,
+    pub iter_offset: u64, // added to every reported iteration count (counts of 65536 and more: narrow integer types on the way to the statistics)
 }
 
 impl std::fmt::Display for Scripted {
@@ -41,6 +42,7 @@ struct ScriptedDec {
     panics: bool,
     seed: u64,
     seq: bool,
+    iter_offset: u64,
 }
 
 impl LdpcDecoder for ScriptedDec {
@@ -69,7 +71,7 @@ impl LdpcDecoder for ScriptedDec {
         }
         // sequential mode (one worker, one point, frames consumed in id order): small iteration counts, every fifth frame "converges" at
         // iteration 0 -- also with wrong bits (a zero-iteration false decode)
-        let out = DecoderOutput { codeword: cw, iterations: if self.seq { if id % 5 == 0 { 0 } else { (id % 7) as usize } } else { id as usize } };
+        let out = DecoderOutput { codeword: cw, iterations: if self.seq { if id % 5 == 0 { 0 } else { (id % 7) as usize } } else { (id + self.iter_offset) as usize } };
         if id % 3 != 0 { Ok(out) } else { Err(out) }
     }
 }
@@ -85,6 +87,7 @@ impl DecoderFactory for Scripted {
             panics: self.panic_every != 0 && idx % self.panic_every == 0,
             seed: self.seed,
             seq: self.seq,
+            iter_offset: self.iter_offset,
         })
     }
 }
@@ -150,14 +153,17 @@ pub fn run(ctx: &mut Ctx, _replay: Option<&[String]>) {
         // target 0: the required number of frame errors is collected before any frame -- every point reports the empty set of frames
         for &target in &[1u64, 3, 20, 0] {
             for &bch in &[0u64, 1, 2] {
-                for rep in 0..ctx.scale(2, 40) {
+                for rep in 0..ctx.scale(3, 40) {
                     let modulation = if rng.chance(1, 2) { Modulation::Bpsk } else { Modulation::Psk8 };
                     let punct: Option<Vec<bool>> = if rng.chance(1, 2) { Some(vec![true, true, true, false]) } else { None };
-                    let inter: Option<isize> = *rng.pick(&[None, Some(3), Some(-3)]);
+                    // frame length 9 with the pattern, 12 without: column counts that divide the transmitted frame but not the other length too
+                    let inter: Option<isize> = if punct.is_some() { *rng.pick(&[None, Some(3), Some(-3), Some(9), Some(-9)]) }
+                        else { *rng.pick(&[None, Some(3), Some(-3), Some(4), Some(-4), Some(12)]) };
+                    let offset: u64 = if rep % 3 == 2 { 70_000 } else { 0 };
                     let fac = Scripted {
                         counter: Arc::new(AtomicU64::new(0)), log: Arc::new(Mutex::new(Vec::new())), log_limit: 0,
                         panic_every: 0, built: Arc::new(AtomicU64::new(0)),
-                        seed: if rep % 2 == 1 { u64::MAX } else { ctx.seed * 1000 + rep as u64 }, seq: false,
+                        seed: if rep % 2 == 1 { u64::MAX } else { ctx.seed * 1000 + rep as u64 }, seq: false, iter_offset: offset,
                     };
                     let (tx, rx) = mpsc::channel();
                     let h2 = h.clone();
@@ -195,7 +201,7 @@ pub fn run(ctx: &mut Ctx, _replay: Option<&[String]>) {
                     // how many decoders (= worker threads) were built: must be workers x Eb/N0 points
                     let out = format!("B:{} {}", built.load(Ordering::SeqCst), out);
                     let tagw = format!("workers-{}", nw);
-                    ctx.emit(&format!("c13 run {} {} {} {}", k, target, bch, nw), &out, target >= 3,
+                    ctx.emit(&format!("c13 run {} {} {} {} {}", k, target, bch, nw, offset), &out, target >= 3,
                         &[tagw.as_str(), if bch > 0 { "with-outer-code-threshold" } else { "no-outer-code" }]);
                 }
             }
@@ -209,7 +215,7 @@ pub fn run(ctx: &mut Ctx, _replay: Option<&[String]>) {
         for &target in &[1u64, 2, 5] {
             let fac = Scripted {
                 counter: Arc::new(AtomicU64::new(0)), log: Arc::new(Mutex::new(Vec::new())), log_limit: 0,
-                panic_every: 0, built: Arc::new(AtomicU64::new(0)), seed: u64::MAX - 1, seq: false,
+                panic_every: 0, built: Arc::new(AtomicU64::new(0)), seed: u64::MAX - 1, seq: false, iter_offset: 0,
             };
             let (tx, rx) = mpsc::channel();
             let h2 = h.clone();
@@ -245,7 +251,7 @@ pub fn run(ctx: &mut Ctx, _replay: Option<&[String]>) {
         for &bch in &[0u64, 1, 2] {
             let fac = Scripted {
                 counter: Arc::new(AtomicU64::new(0)), log: Arc::new(Mutex::new(Vec::new())), log_limit: 0,
-                panic_every: 0, built: Arc::new(AtomicU64::new(0)), seed: ctx.seed, seq: true,
+                panic_every: 0, built: Arc::new(AtomicU64::new(0)), seed: ctx.seed, seq: true, iter_offset: 0,
             };
             let (tx, rx) = mpsc::channel();
             let h2 = h.clone();
@@ -289,7 +295,7 @@ pub fn run(ctx: &mut Ctx, _replay: Option<&[String]>) {
         for (name, modulation, punct, inter, panic_every) in fails.clone() {
             let fac = Scripted {
                 counter: Arc::new(AtomicU64::new(0)), log: Arc::new(Mutex::new(Vec::new())), log_limit: 0,
-                panic_every, built: Arc::new(AtomicU64::new(0)), seed: ctx.seed, seq: false,
+                panic_every, built: Arc::new(AtomicU64::new(0)), seed: ctx.seed, seq: false, iter_offset: 0,
             };
             let h2 = h.clone();
             // half of the failing runs have a reporter attached: the final `Finished` report must arrive also when the run fails
